@@ -89,14 +89,26 @@ PROP = {
                       "client.CacheClient (and real manager.Manager + fake agents incl. generator mode), (3) a process-level "
                       "run of the built gnmi_collector and gnmi_cli binaries against TLS targets, whose output is compared "
                       "with the model's expected tree.",
-        "level_note": "Partial: the full statement (Gnmi.C01.pipeline_faithful, kept as a Prop) also covers STREAM clients "
-                      "subscribing at any point and a leaf re-sent with the same timestamp but another value; those parts are "
-                      "computed by the executable model and checked by the correspondence at every subscription point, not "
-                      "proved (they need C04's convergence of the coalescing sender composed with the feed order, and raw-"
-                      "rendering faithfulness). gRPC/TLS, process start-up, flag parsing, "
+        "level_note": "Partial: proved are the cache clause, the ONCE clause and the STREAM clause (pipeline_faithful_stream_partial) for "
+                      "per-leaf increasing timestamps or unchanged re-sends; not proved: a leaf re-sent with the same timestamp but another "
+                      "value (needs raw-rendering faithfulness in the invariant) — computed by the executable model and checked by the "
+                      "correspondence. The literal full statement is false for +0.0/-0.0 (pipeline_faithful_refuted; ExactStream hypothesis). "
+                      "gRPC/TLS, process start-up, flag parsing, "
                       "prototext and the CLI's text rendering are exercised by the process-level run, not proved.",
         "technique": "Lean 4 proof (inductive invariant over interleaved runs; refinement of the cache to an abstract view; "
                      "composition of component theorems) + in-process and process-level model/implementation correspondence",
         "design_ref": "DESIGN.md §8 C01",
     },
 }
+
+# the STREAM clause (Props/C01Stream.lean), composing C04Seq: see docs/STREAM_SEQ_NOTES.md
+from c04seq_part import MODULES as _SEQ_MODULES, MODULES_C01 as _C01S_MODULES, THEOREMS_C01 as _C01S_THEOREMS
+PROP["modules"] += _SEQ_MODULES + _C01S_MODULES
+PROP["theorems"] += _C01S_THEOREMS
+PROP["manifest"]["level_text"] += (
+    " STREAM clause: pipeline_faithful_stream_partial — a STREAM client subscribing at any point of the run holds Relay.expected at the end "
+    "(second conjunct of pipeline_faithful, for wellFormed true streams, no target named '*', ExactStream: values whose value.Equal is identity; "
+    "exactV_of_noFloat: every value without float/double). pipeline_faithful_refuted: without ExactStream the literal statement is false of model "
+    "and code — a target sending +0.0 then -0.0 has the second update withheld as 'unchanged' (value.Equal compares doubles with ==), so a "
+    "STREAM client keeps +0.0 where the cache stores -0.0: numerically equal, recorded as an interpretation of 'same value' (DESIGN.md 13.3).")
+
